@@ -414,7 +414,7 @@ Proof.
            ++ rewrite He3, He2, <- app_assoc. reflexivity.
            ++ constructor; [split; reflexivity | exact Hf3].
         -- rewrite Hl3. unfold logged in Hlg. rewrite Hlg, app_nil_r. reflexivity.
-    + intros w2 (_ & _ & Hfull). assert (Hs1 : self w1 = self w) by reflexivity.
+    + intros w2 (_ & _ & _ & Hfull). assert (Hs1 : self w1 = self w) by reflexivity.
       rewrite Hs1 in Hfull. lia.
 Qed.
 
@@ -512,7 +512,7 @@ Proof.
            ++ rewrite He3, He2, <- app_assoc. reflexivity.
            ++ constructor; [reflexivity | exact Hf3].
         -- rewrite Hl3. unfold logged in Hlg. rewrite Hlg, app_nil_r. reflexivity.
-    + intros w2 (_ & _ & Hfull). assert (Hs1 : self w1 = self w) by reflexivity.
+    + intros w2 (_ & _ & _ & Hfull). assert (Hs1 : self w1 = self w) by reflexivity.
       rewrite Hs1 in Hfull. lia.
 Qed.
 
@@ -600,7 +600,7 @@ Proof.
         cbn [fst]. change (kcls k') with (kcls k). intros Heq. apply Hnk. rewrite Heq.
         apply (in_map (fun p => kcls (fst p))). exact Hp.
       * rewrite Hl2, Hc2. lia.
-    + intros w2 ([Hs2 _] & _ & _). rewrite Hs2. exact Hw.
+    + intros w2 (Hs2 & _). rewrite Hs2. exact Hw.
 Qed.
 
 Lemma serde_overflow debug sc (src : map key vobj) cp s lg :
